@@ -21,8 +21,8 @@ SET_METHODS = {'add', 'update', 'clear', 'discard', 'remove', 'copy'}
 class IterV:
     """Python-side description of an iterable: length term + element function."""
 
-    def __init__(self, length, at, desc=''):
-        self.length, self.at, self.desc = length, at, desc
+    def __init__(self, length, at, desc='', seq=None):
+        self.length, self.at, self.desc, self.seq = length, at, desc, seq
 
 
 class LocAttr:
@@ -776,7 +776,12 @@ class Interp:
             return SeqV(seq) if (self.pure or kind == 'gen') else self.st.new_list(seq)
         if gen.ifs:
             raise Unsupported('filtered comprehension over a symbolic sequence')
-        # map over a symbolic sequence: result sequence R with |R| = n and R[k] = f(S[k])
+        # map over a symbolic sequence
+        if it.desc in ('list', 'tuple', 'seq') and isinstance(gen.target, ast.Name):
+            mapped = self.named_map(gen.target.id, node.elt, it)
+            if mapped is not None:
+                return SeqV(mapped) if (self.pure or kind == 'gen') else self.st.new_list(mapped)
+        # general case: result sequence R with |R| = n and R[k] = f(S[k])
         n = it.length
         R = self.st.fresh('comp', SeqVal)
         k = z3.Int(self.st.fresh_name('ck'))
@@ -788,6 +793,61 @@ class Interp:
         self.st.pc.append(z3.ForAll([k], z3.Implies(z3.And(0 <= k, k < n), R[k] == body)))
         self.st.assumptions.add('A-comp: comprehension element expressions are evaluated as total (non-raising) terms')
         return SeqV(R) if (self.pure or kind == 'gen') else self.st.new_list(R)
+
+    SIMPLE_ELT_CALLS = {'str', 'int', 'float', 'len', 'repr', 'bool'}
+
+    def named_map(self, var, elt, it):
+        """[f(x) for x in S] with a heap-independent f becomes cmap_f(S): one uninterpreted
+        function per element expression (alpha-normalised), with its pointwise definition as a
+        global axiom - so the code's comprehension and the specification's comp_map() are the
+        same term."""
+        free = []
+        for n in ast.walk(elt):
+            if isinstance(n, (ast.Attribute,)) and not (isinstance(getattr(n, 'ctx', None), ast.Load) and False):
+                # attribute access: only as the callee of a string method on the element
+                pass
+            if isinstance(n, (ast.Subscript, ast.Lambda, ast.ListComp, ast.GeneratorExp, ast.Starred)):
+                return None
+        for n in ast.walk(elt):
+            if isinstance(n, ast.Call):
+                f = n.func
+                if isinstance(f, ast.Name) and f.id in self.SIMPLE_ELT_CALLS and f.id not in self.env:
+                    continue
+                if isinstance(f, ast.Attribute) and f.attr in ('rstrip', 'strip', 'lower', 'upper') and not n.args:
+                    continue
+                return None
+            if isinstance(n, ast.Attribute):
+                # allowed only as callee checked above
+                parent_ok = any(isinstance(c, ast.Call) and c.func is n for c in ast.walk(elt))
+                if not parent_ok:
+                    return None
+            if isinstance(n, ast.Name) and n.id != var and n.id not in self.SIMPLE_ELT_CALLS:
+                return None
+        import copy, hashlib
+
+        class Ren(ast.NodeTransformer):
+            def visit_Name(self, node):
+                return ast.copy_location(ast.Name(id='_x' if node.id == var else node.id, ctx=node.ctx), node)
+        norm = Ren().visit(copy.deepcopy(elt))
+        key = hashlib.sha1(ast.dump(norm).encode()).hexdigest()[:10]
+        F = V.uf('cmap_' + key, SeqVal, SeqVal)
+        gk = 'cmap_' + key
+        if gk not in self.st.ghost:
+            self.st.ghost[gk] = True
+            sq = z3.Const('cm_s', SeqVal)
+            k = z3.Int('cm_k')
+            sub = self.sub(env={var: sq[k]}, pure=True)
+            body = sub.to_val(sub.ev(elt))
+            self.st.axioms.append(z3.ForAll([sq], z3.Length(F(sq)) == z3.Length(sq), patterns=[F(sq)]))
+            self.st.axioms.append(z3.ForAll([sq, k], z3.Implies(z3.And(k >= 0, k < z3.Length(sq)), F(sq)[k] == body),
+                                            patterns=[F(sq)[k]]))
+            self.st.assumptions.add('A-comp: comprehension element expressions are evaluated as total (non-raising) terms')
+        # the source sequence
+        n = z3.Int(self.st.fresh_name('cm_n'))
+        src = getattr(it, 'seq', None)
+        if src is None:
+            return None
+        return F(src)
 
     # iteration --------------------------------------------------------------------------------
     def iterable(self, v):
@@ -804,22 +864,22 @@ class Interp:
                 return [lit(e) for e in obj]
             raise Unsupported('iteration over constant %s' % type(obj).__name__)
         if isinstance(v, SeqV):
-            return IterV(z3.Length(v.seq), lambda k, s=v.seq: s[k], 'seq')
+            return IterV(z3.Length(v.seq), lambda k, s=v.seq: s[k], 'seq', seq=v.seq)
         v = self.to_val(v)
         st = self.st
         tag = V.tagname(v)
         if tag == 't' or (tag is None and not self.pure and st.branch(Val.is_t(v))):
             s = Val.tv(v)
-            return IterV(z3.Length(s), lambda k: s[k], 'tuple')
+            return IterV(z3.Length(s), lambda k: s[k], 'tuple', seq=s)
         if self.pure:
             s = z3.Select(self.heap.get('list'), Val.ref(v))
-            return IterV(z3.Length(s), lambda k: s[k], 'list')
+            return IterV(z3.Length(s), lambda k: s[k], 'list', seq=s)
         if st.branch(Val.is_o(v)):
             ref = Val.ref(v)
             cls = st.cls_of(ref)
             if st.branch(z3.Or(cls == V.LIST_CID, cls == V.SET_CID)):
                 s = st.items(ref)
-                return IterV(z3.Length(s), lambda k: s[k], 'list')
+                return IterV(z3.Length(s), lambda k: s[k], 'list', seq=s)
             if st.branch(cls == V.DICT_CID):
                 s = st.dkeys(ref)
                 return IterV(z3.Length(s), lambda k: s[k], 'dict')
@@ -1545,13 +1605,57 @@ class Interp:
             raise Unsupported('seq_sum needs a sequence')
         return Val.f(F(sv.seq, num_int(self.to_val(self.ev(node.args[2])))))
 
+    def spec_old_or_empty(self, node):
+        """the items of a list, or the empty sequence when `flag` is truthy (set_input's clear)"""
+        flag = self.truth(self.ev(node.args[0]))
+        lst = self.to_val(self.ev(node.args[1]))
+        return SeqV(z3.If(flag, z3.Empty(SeqVal), z3.Select(self.heap.get('list'), Val.ref(lst))))
+
+    def spec_elements(self, node):
+        """elements of a list or tuple value"""
+        v = self.to_val(self.ev(node.args[0]))
+        return SeqV(z3.If(Val.is_t(v), Val.tv(v), z3.Select(self.heap.get('list'), Val.ref(v))))
+
+    def spec_comp_map(self, node):
+        """comp_map(lambda x: f(x), seq): the same term the engine gives to [f(x) for x in seq]"""
+        lam = node.args[0]
+        sv = self.ev(node.args[1])
+        if not isinstance(sv, SeqV) or not isinstance(lam, ast.Lambda):
+            raise Unsupported('comp_map(lambda x: ..., sequence)')
+        it = IterV(z3.Length(sv.seq), lambda k: sv.seq[k], 'seq', seq=sv.seq)
+        m = self.named_map(lam.args.args[0].arg, lam.body, it)
+        if m is None:
+            raise Unsupported('comp_map: element expression is not heap-independent')
+        return SeqV(m)
+
     def spec_lower(self, node):
         v = self.to_val(self.ev(node.args[0]))
         return Val.s(STR_LOWER(Val.sv(v)))
 
     def spec_ghost(self, node):
         name = node.args[0].value
-        return self.st.ghost.get(name, V.mk_int(0))
+        g = self.heap.ghost
+        if name not in g:
+            g[name] = z3.Const('G0_' + name, Val)
+            self.st.heap.ghost.setdefault(name, g[name])
+        return g[name]
+
+    def spec_printed(self, node):
+        """everything print() was called with so far (ghost), as a sequence of argument tuples"""
+        g = self.heap.ghost
+        if 'printed' not in g:
+            g['printed'] = z3.Const('G0_printed', SeqVal)
+            self.st.heap.ghost.setdefault('printed', g['printed'])
+        return SeqV(g['printed'])
+
+    def spec_rstrip(self, node):
+        v = self.to_val(self.ev(node.args[0]))
+        return Val.s(STR_RSTRIP(Val.sv(v)))
+
+    def spec_split(self, node):
+        v = self.to_val(self.ev(node.args[0]))
+        sep = self.to_val(self.ev(node.args[1]))
+        return SeqV(V.uf('str_split', V.S, V.S, SeqVal)(Val.sv(v), Val.sv(sep)))
 
     def spec_raw(self, node):
         """escape hatch: python expression over z3 evaluated by the contract loader"""
